@@ -110,6 +110,7 @@ type SimConn struct {
 type connState struct {
 	fd     int
 	closed bool
+	inControl int // RawConn.Control callbacks running: each holds a reference to the descriptor
 }
 
 type connEntry struct {
@@ -296,6 +297,11 @@ func (c *SimConn) Close() error {
 		return c.opErr("close", real.ErrClosed)
 	}
 	c.st.closed = true
+	if c.st.inControl > 0 {
+		// poll.FD.Close waits until every reference to the descriptor is gone, and RawConn.Control holds one
+		// while its callback runs: a Close issued from inside that callback never returns
+		world().Block("net.Conn.Close inside RawConn.Control (the runtime waits for Control to return)", func() bool { return c.st.inControl == 0 }, -1)
+	}
 	if e := world().K.Close(c.fd); e != 0 {
 		return c.opErr("close", os.NewSyscallError("close", e))
 	}
@@ -329,6 +335,8 @@ func (r rawConn) Control(f func(fd uintptr)) error {
 	if r.c.st.closed {
 		return r.c.opErr("raw-control", real.ErrClosed)
 	}
+	r.c.st.inControl++
+	defer func() { r.c.st.inControl-- }()
 	f(uintptr(r.c.fd))
 	return nil
 }
